@@ -3,6 +3,7 @@ import PandoraModel.Properties.C12Kernels
 import PandoraModel.Properties.C12KernelsBounds
 import PandoraModel.Properties.C12KernelsSampled
 import PandoraModel.Properties.C12Names
+import PandoraModel.Properties.C12KernelsRegul
 open Pandora.C12
 -- tie to the source
 #print axioms stems_from_source
@@ -81,3 +82,8 @@ open Pandora.C12
 #print axioms Pandora.C12Names.indicator_unrepaired_eq_model
 #print axioms Pandora.C12Names.stems_lookup
 #print axioms Pandora.C12Names.names_generated_eq_spec
+-- the connection scan of create_connected_graph regenerated = Confidence.connectionGraph (Properties/C12KernelsRegul.lean)
+#print axioms Pandora.C12KernelsRegul.connAct_of
+#print axioms Pandora.C12KernelsRegul.scan_eq
+#print axioms Pandora.C12KernelsRegul.connRow_eq
+#print axioms Pandora.C12KernelsRegul.connectionGraph_generated_eq
